@@ -7,7 +7,7 @@
   list of steps — pushes by the application thread, `start`/`finish`/`callback` of any task by any worker in any
   order, `flushBegin`/`flushWait`/`flushEnd` anywhere (a step that is not enabled does nothing, so every list is a
   schedule: all interleavings, any number of workers, flush racing with completion and with callbacks, pushes
-  before, during and after flush — a push either as one step or in the regions of `submit_task`: `pushBegin`
+  before, during and after flush, pushes the executor itself refuses (`pushRejected`: `pool.submit` raises) — a push either as one step or in the regions of `submit_task`: `pushBegin`
   (check, id, `pool.submit`) and `pushStore` (the store into the pending map), with anything in between; a wait of
   flush may also run into its 10 s bound, `flushTimeout`).  The transitions are the regenerated translations of `submit_task`,
   `__check_open`, `_next_id`, the done-callback, and the facts read off the regenerated guard skeleton of `flush`
@@ -183,6 +183,33 @@ theorem c09_refuse (f : Int → Outcome) (s : St) (h : s.th.isOpen = false) :
   refine ⟨?_, push_closed s h, pushBegin_closed s h⟩
   simp [submitTask, submitAccept, h, fact_refuses, refusalClass]
 
+/-- **the executor's own refusal** — when `self._pool.submit` raises (RuntimeError: the pool was shut down, as at
+    interpreter exit), `push_snapshot` hands an exception to its caller — an `Exception` from the executor, or, on a
+    closed handler, the `BaseException` of `__check_open` which comes first — and nothing else happens: no task exists
+    for that snapshot (it is never sent: not once, not twice), nothing is added to what the pool accepted or to the
+    pending map, the handler stays as open or closed as it was, flush's bookkeeping is untouched, no work is done on the
+    caller; only a job id is used up.  `.pushRejected` is a step of every schedule the other theorems quantify over:
+    ids are still never reused (`c09_ids_distinct`), every accepted snapshot is still sent exactly once (`c09_once`),
+    flush still returns and drains (`c09_flush_returns`, `c09_drained_partial`). -/
+theorem c09_executor_rejection (f : Int → Outcome) (s : St) :
+    (submitRejected s.th).2 = (if s.th.isOpen then .exc else .base) ∧
+    (step f s .pushRejected).refused = s.refused + 1 ∧
+    (step f s .pushRejected).tasks = s.tasks ∧
+    (step f s .pushRejected).th.accepted = s.th.accepted ∧
+    (step f s .pushRejected).th.pending = s.th.pending ∧
+    (step f s .pushRejected).th.isOpen = s.th.isOpen ∧
+    (step f s .pushRejected).flush = s.flush ∧
+    (step f s .pushRejected).callerRuns = s.callerRuns ∧
+    s.th.jobId ≤ (step f s .pushRejected).th.jobId := by
+  have e : step f s .pushRejected = pushRejected s := rfl
+  rw [e, pushRejected_eq]
+  refine ⟨?_, rfl, rfl, rfl, rfl, rfl, rfl, rfl, ?_⟩
+  · cases ho : s.th.isOpen with
+    | false => rw [submitRejected_closed _ ho]; rfl
+    | true => rw [submitRejected_open _ ho]; rfl
+  · show s.th.jobId ≤ (if s.th.isOpen then s.th.jobId + 1 else s.th.jobId)
+    split <;> omega
+
 /-- flush closes the handler before it looks at the pending map, and a closed handler stays closed -/
 theorem c09_closed_stays (f : Int → Outcome) (sched : List Step) (s : St) (h : s.th.isOpen = false) :
     (runFrom f s sched).th.isOpen = false := by
@@ -193,6 +220,7 @@ theorem c09_closed_stays (f : Int → Outcome) (sched : List Step) (s : St) (h :
     cases st with
     | push => show (push s).th.isOpen = false; rw [push_closed s h]; exact h
     | pushBegin => show (pushBegin s).th.isOpen = false; rw [pushBegin_closed s h]; exact h
+    | pushRejected => show (pushRejected s).th.isOpen = false; rw [pushRejected_eq]; exact h
     | pushStore id =>
       simp only [step]
       split
@@ -278,5 +306,13 @@ private def sched3 : List Step :=
 example : (run f3 sched3).flush = .returned ∧ (run f3 sched3).refused = 1 ∧
     (run f3 sched3).tasks.map (fun t => (t.id, t.ranOn, t.sends)) = [(1, [0], 1), (2, [1], 1), (3, [1], 0)] ∧
     (run f3 sched3).th.pending = [] := by decide
+
+/-- non-vacuity for `c09_executor_rejection`: the executor refuses the second of three pushes — its id (2) is used up,
+    the other two snapshots are delivered exactly once, flush returns with everything finished -/
+example :
+    let s := run (fun _ => .ok) [.push, .pushRejected, .push, .start 1 0, .start 3 1, .flushBegin, .finish 3,
+                                 .finish 1, .flushWait, .flushWait, .flushEnd, .callback 1, .callback 3]
+    s.flush = .returned ∧ s.refused = 1 ∧ s.tasks.map (fun t => (t.id, t.ranOn.length, t.sends)) = [(1, 1, 1), (3, 1, 1)] ∧
+    s.th.pending = [] := by decide
 
 end C09
